@@ -1,5 +1,5 @@
 CONSTANT Repaired = TRUE
-CONSTANT AETexts = {"absent", "gzip", "zstd, gzip", "br", "identity", "*", "gzip;q=0", "gzip;q=0.5, zstd", "gzip, deflate, br, zstd"}
+CONSTANT AETexts = {"absent", "gzip", "zstd, gzip", "br", "identity", "*", "gzip;q=0", "gzip;q=0, *", "*, gzip;q=0", "gzip, br;q=0", "gzip;q=0.5, zstd", "gzip, deflate, br, zstd"}
 CONSTANT Statuses = {200, 204, 304, 404}
 CONSTANT PreCEs = {"none", "gzip", "br", "zstd", "identity"}
 CONSTANT ETags = {"none", "strong", "weak"}
